@@ -364,7 +364,7 @@ def world_default_tag(tL: int, tG: int, tD: int, tS: int, which: int) -> bool:
     return hx.end(True)
 
 
-BOUNDS = {"classes": "Agent, A(Agent), C(A), S(Agent), G(C), E(Environment)", "class component types": 2,
+BOUNDS = {"classes": "Agent, A(Agent), C(A), S(Agent), G(C), E(Environment); pairs of same-named classes from a factory / from one shared namespace dict; user subclasses of the four world classes", "class component types": 2,
           "operations": "one step from an arbitrary per-class component state / one instantiation after 4 tag assignments",
           "tags": "all ints"}
 OUTSIDE = ["hierarchies deeper than 3 levels or with multiple inheritance", "class components attached through private attributes"]
